@@ -1,10 +1,115 @@
 open Model
 open Driver_base
 
-let dispatch fn args = match fn, args with
+(* ---- oracles: the real libraries, asked through the harness ---- *)
+let ostr name s = match oracle name (vs s) with VS l -> str_of_ints l | _ -> failwith ("oracle " ^ name)
+let ostr_opt name s = match oracle name (vs s) with
+  | VS l -> Some (str_of_ints l) | VNone -> None | _ -> failwith ("oracle " ^ name)
+let oracles = {
+  o_nfkc = (fun s -> ostr "nfkc" s);
+  o_ip_parse = (fun s -> match oracle "ip_parse" (vs s) with
+      | VNone -> None
+      | VL [VI v; VS c] -> Some (n_of_int v, str_of_ints c)
+      | _ -> failwith "oracle ip_parse");
+  o_idna2008_enc = (fun s -> ostr_opt "idna2008_enc" s);
+  o_idna2003_enc = (fun s -> ostr_opt "idna2003_enc" s);
+  o_idna2008_dec = (fun s -> ostr_opt "idna2008_dec" s);
+  o_idna2003_dec = (fun s -> ostr_opt "idna2003_dec" s);
+  o_lower = (fun s -> ostr "lower" s);
+}
+
+(* ---- protocol values -> model types ---- *)
+let z_of_int i = if i = 0 then Z0 else if i > 0 then Zpos (pos_of_int i) else Zneg (pos_of_int (-i))
+let gso = gopt gs
+let portarg = function VNone -> PNone | VI i -> PInt (z_of_int i) | VB b -> PBool b | _ -> failwith "portarg"
+let tag = function VS l -> String.concat "" (List.map (fun c -> String.make 1 (Char.chr c)) l) | _ -> failwith "tag"
+
+let qvar = function
+  | VS l -> QStr (str_of_ints l)
+  | VI i -> QInt (z_of_int i)
+  | VB _ -> QBool
+  | VNone -> QNone
+  | VL [t; VS r] when tag t = "float" -> QFloat (str_of_ints r)
+  | VL [t] when tag t = "inf" -> QInf
+  | VL [t] when tag t = "nan" -> QNan
+  | VL [t] when tag t = "other" -> QOther
+  | _ -> failwith "qvar"
+let qval = function
+  | VL (t :: l) when (match t with VS _ -> tag t = "list" | _ -> false) -> QList (List.map qvar l)
+  | v -> QV (qvar v)
+let qitem = function VL [k; v] -> (gs k, qval v) | _ -> failwith "qitem"
+let qarg = function
+  | VNone -> QANone
+  | VS l -> QAStr (str_of_ints l)
+  | VL (t :: l) ->
+    (match tag t with
+     | "map" -> QAMap (List.map qitem l)
+     | "seq" -> QASeq (List.map qitem l)
+     | "bytes" -> QABytes
+     | _ -> QAOther)
+  | _ -> failwith "qarg"
+
+let ctor = function
+  | VL [t; s] when tag t = "url" -> CUrl (gs s)
+  | VL [t; s] when tag t = "enc" -> CUrlEnc (gs s)
+  | VL [t; sc; au; us; pw; ho; po; pa; qu; qs; fr; en] when tag t = "build" ->
+    CBuild { b_scheme = gs sc; b_authority = gs au; b_user = gso us; b_password = gso pw;
+             b_host = gs ho; b_port = portarg po; b_path = gs pa; b_query = qarg qu;
+             b_query_string = gs qs; b_fragment = gs fr; b_encoded = gb en }
+  | _ -> failwith "ctor"
+
+let op name args = match name, args with
+  | "with_scheme", [s] -> OWithScheme (gs s)
+  | "with_user", [s] -> OWithUser (gso s)
+  | "with_password", [s] -> OWithPassword (gso s)
+  | "with_host", [s] -> OWithHost (gs s)
+  | "with_port", [p] -> OWithPort (portarg p)
+  | "with_path", [s; e; kq; kf] -> OWithPath (gs s, gb e, gb kq, gb kf)
+  | "with_query", [q] -> OWithQuery (qarg q)
+  | "extend_query", [q] -> OExtendQuery (qarg q)
+  | "update_query", [q] -> OUpdateQuery (qarg q)
+  | "without_query_params", [l] -> OWithoutParams (gl gs l)
+  | "with_fragment", [s] -> OWithFragment (gso s)
+  | "with_name", [s; kq; kf] -> OWithName (gs s, gb kq, gb kf)
+  | "with_suffix", [s; kq; kf] -> OWithSuffix (gs s, gb kq, gb kf)
+  | "parent", [] -> OParent
+  | "joinpath", [l; e] -> OJoinPath (gl gs l, gb e)
+  | "div", [s] -> ODiv (gs s)
+  | "origin", [] -> OOrigin
+  | "relative", [] -> ORelative
+  | "pickle", [] -> OPickle
+  | _ -> failwith ("op " ^ name)
+
+let instr = function
+  | VL [t; c] when tag t = "push" -> IPush (ctor c)
+  | VL (t :: n :: args) when tag t = "op" -> IOp (op (tag n) args)
+  | VL [t] when tag t = "join" -> IJoin
+  | _ -> failwith "instr"
+let prog v = gl instr v
+
+let rec vval = function
+  | WStr s -> vs s
+  | WNone -> VNone
+  | WNat n -> VI (int_of_n n)
+  | WBool b -> VB b
+  | WList l -> VL (List.map vval l)
+  | WErr e -> VE (exn_name e)
+
+let backend = function "py" -> BPy | "c" -> BC | _ -> failwith "backend"
+
+let dispatch fn args =
+  let (name, be) = (match String.index_opt fn '@' with
+      | Some i -> (String.sub fn 0 i, String.sub fn (i + 1) (String.length fn - i - 1))
+      | None -> (fn, "py")) in
+  let b = backend be in
+  match name, args with
   | "normalize_path", [a] -> vs (normalize_path (gs a))
   | "normalize_path_segments", [a] -> vlist vs (normalize_path_segments (gl gs a))
   | "remove_dot_segments", [a] -> vopt vs (remove_dot_segments (gs a))
+  | "quote", [i; a] -> vs (quote_n b (nat_of_int (gi i)) (gs a))
+  | "unquote", [i; a] -> vs (unquote_n b (nat_of_int (gi i)) (gs a))
+  | "observe", [p; pr] -> vval (run_observe oracles b (n_of_int (gi p)) (prog pr))
+  | "compare", [p1; p2] -> vval (run_compare oracles b (prog p1) (prog p2))
   | "c15_np_pred", [a; VS o] -> VB (c15_np_pred (gs a) (str_of_ints o))
   | "c15_np_pred", [_; _] -> VB false
   | _ -> failwith ("unknown function " ^ fn)
